@@ -17,7 +17,8 @@
        if      c = <<test, body, orelse>>  one decision      for     c = <<iter, body>>, target n := s per trip, 0..2 trips
        def     n := the function (site s) of scope sc, closed over the CURRENT frame (def and `n = lambda ..`)
        class   c = <<>>: runs the body of scope sc in a new frame now, then n := site s
-       comp    runs scope sc (a comprehension, one trip) in a new frame now
+       comp    runs scope sc (a comprehension; one decision: one trip or none) in a new frame now
+       wbind   a walrus inside a comprehension: n := site s in the frame of the scope the comprehension is written in
        call    read id s of name n, then - if the value is a function and the call budget allows - run its scope
                in a new frame whose parent is the frame the function was DEFINED in; parameters are bound to their sites
        return  leave the innermost call
@@ -55,7 +56,11 @@ PushOn(s, n, fr) == IF n = 0 THEN s ELSE Append(s, Frame(n, 0, fr, 0))
 \* ---- static scoping -----------------------------------------------------------------------------
 BindKinds == {"bind", "for", "def", "class"}
 ParamNames(sc) == {S(sc).params[j].n : j \in 1..Len(S(sc).params)}
+RECURSIVE NonComp(_)
+NonComp(sc) == IF S(sc).kind = "comp" THEN NonComp(S(sc).parent) ELSE sc      \* the scope a comprehension is written in
+\* a walrus inside a comprehension (node kind wbind, owned by the comprehension) binds in the scope the comprehension is written in
 BoundIn(sc) == {N(i).n : i \in {j \in 1..NNodes : N(j).o = sc /\ N(j).k \in BindKinds}} \cup ParamNames(sc)
+               \cup (IF S(sc).kind = "comp" THEN {} ELSE {N(i).n : i \in {j \in 1..NNodes : N(j).k = "wbind" /\ NonComp(N(j).o) = sc}})
 DeclGlobal(sc, n) == n \in ToSet(S(sc).gl)
 DeclNonlocal(sc, n) == n \in ToSet(S(sc).nl)
 Local(sc, n) == n \in BoundIn(sc) /\ ~DeclGlobal(sc, n) /\ ~DeclNonlocal(sc, n)
@@ -97,6 +102,9 @@ NewFrame(sc, up, env) == [sc |-> sc, up |-> up, env |-> env]
 
 IsDefSite(s) == \E i \in 1..Len(Programs[pid].scopes) : S(i).site = s /\ S(i).kind \in {"function", "lambda"}
 ScopeOfSite(s) == CHOOSE i \in 1..Len(Programs[pid].scopes) : S(i).site = s
+
+RECURSIVE FrameNonComp(_)
+FrameNonComp(fr) == IF S(heap[fr].sc).kind = "comp" THEN FrameNonComp(heap[fr].up) ELSE fr
 
 RECURSIVE PopToMarker(_)
 PopToMarker(s) == IF s = <<>> THEN <<>>
@@ -155,12 +163,18 @@ Step ==
                    /\ k' = PushOn(SetTop(Frame(f.n, 1, f.fr, 0)), S(nd.sc).root, Len(heap) + 1)
                    /\ UNCHANGED <<ncalls, dec, obs, crash>>
               ELSE /\ heap' = Bind(f.fr, nd.n, Val(nd.s, 0)) /\ k' = Pop /\ UNCHANGED <<ncalls, dec, obs, crash>>
-         [] nd.k = "comp" ->
+         [] nd.k = "comp" ->         \* one decision: the iterable yields one item or none
               IF f.ph = 0
-              THEN /\ heap' = Append(heap, NewFrame(nd.sc, f.fr, ParamEnv(nd.sc)))
-                   /\ k' = PushOn(SetTop(Frame(f.n, 1, f.fr, 0)), S(nd.sc).root, Len(heap) + 1)
-                   /\ UNCHANGED <<ncalls, dec, obs, crash>>
+              THEN \/ /\ dec' = Append(dec, 1)
+                      /\ heap' = Append(heap, NewFrame(nd.sc, f.fr, ParamEnv(nd.sc)))
+                      /\ k' = PushOn(SetTop(Frame(f.n, 1, f.fr, 0)), S(nd.sc).root, Len(heap) + 1)
+                      /\ UNCHANGED <<ncalls, obs, crash>>
+                   \/ /\ dec' = Append(dec, 0)
+                      /\ k' = Pop
+                      /\ UNCHANGED <<heap, ncalls, obs, crash>>
               ELSE k' = Pop /\ UNCHANGED <<heap, ncalls, dec, obs, crash>>
+         [] nd.k = "wbind" ->
+              /\ heap' = Bind(FrameNonComp(f.fr), nd.n, Val(nd.s, 0)) /\ k' = Pop /\ UNCHANGED <<ncalls, dec, obs, crash>>
          [] nd.k = "call" ->
               LET v == Get(f.fr, nd.n) IN
               /\ obs' = Append(obs, <<nd.s, v.s>>)
